@@ -49,5 +49,17 @@ UseAfterPublishX == UseAfterPublish \/ (Attack("UseAfterPublish") /\ FALSE)
 LinearizableX    == Linearizable    \/ (Attack("Linearizable") /\ FALSE)
 
 MCNoStuck == AllDone \/ ENABLED MCNext
+
+(* every step makes progress in a bounded measure: no behaviour is infinite, so with MCNoStuck every      *)
+(* maximal behaviour ends with all N*K calls returned (blocking in Once.Do is never a deadlock or livelock) *)
+RECURSIVE SumOver(_, _)
+SumOver(S, f) == IF S = {} THEN 0 ELSE LET x == CHOOSE y \in S : TRUE IN f[x] + SumOver(S \ {x}, f)
+AtRank(p, s) == IF got[p][s] # "none" /\ at[p][s] = "out" THEN 5
+                ELSE CASE at[p][s] = "out" -> 0
+                       [] at[p][s] \in {"sawNil", "sawSet"} -> 1
+                       [] at[p][s] = "initing" -> 2
+                       [] OTHER -> 3
+Rank == SumOver(Procs, [p \in Procs |-> 100 * calls[p] + 50 * Len(results[p]) + SumOver(Sites, [s \in Sites |-> AtRank(p, s)])])
+Progress == [][Rank' > Rank]_mcvars
 SchedOnly == [sched |-> sched]       \* ALIAS: error traces print the schedule only
 =============================================================================
